@@ -47,6 +47,25 @@ CHECKS = {
         'are outside (see DESIGN).',
         'gmpy isqrt/is_square by exact contract; isqrt-uniqueness lemma proved '
         'as a schema; primality not assumed'),
+    'C19': (
+        True, '5/C19',
+        'symbolic execution of the real helpers on z3 BitVec / Int / Real '
+        'proxies (pysym); z3 decides the defining congruence, the convergent '
+        'recurrences, polynomial identities of the product trees and A*x == b',
+        'Bounded symbolic model checking: 2-adic inverse / inverse square '
+        'root / square roots for every n with |n| < 2^(2k+4) and k <= 10 (16); '
+        'continued fractions with <= 4 (6) quotients over unbounded integers; '
+        'rounded division for all a and b >= 1; product trees of 0..17 (33) '
+        'unbounded values; pseudo-average for lists of <= 3 (4) residues, '
+        'modulus <= 64; linear solver: all paths over an abstract field up '
+        'to 3x3 (4x3), integer semantics fully symbolic up to 3x2 and, for '
+        'every 3x3 matrix over {-1,0,1} and seeded rank-deficient families '
+        'up to 6x4 (8x5), for EVERY integer right-hand side in the column '
+        'space.',
+        'gmpy f_mod_2exp exact; gmpy.mpq as exact rationals; the field '
+        'abstraction assumes exact fraction-free divisions (decided '
+        'separately under integer semantics); small_roots and float CDFs '
+        'outside'),
 }
 
 NOT_APPLICABLE = {
